@@ -1393,7 +1393,9 @@ fn prove_honest_cfg<C: Mc, P: crate::pv::Pv<EF = C::EF>>(c: &Case) -> Report {
 pub fn oracle_prove_honest(c: &Case) -> Report {
     match c.cfg % N_CFG {
         0 => prove_honest_cfg::<KbD4W16, crate::fields::Kb4>(c),
+        1 => prove_honest_cfg::<KbD4W32, crate::fields::Kb4>(c),
         2 => prove_honest_cfg::<BbD4W16, crate::fields::Bb4>(c),
+        3 => prove_honest_cfg::<BbD4W32, crate::fields::Bb4>(c),
         _ => Report::discard("configuration has no prover table support in the harness"),
     }
 }
@@ -1501,13 +1503,31 @@ fn forged_opening_cfg<C: Mc, P: crate::pv::Pv<EF = C::EF, BF = C::F>>(c: &Case) 
         .class(format!("changed:{level}"))
         .nontrivial(true)
         .key(hash_of(&(c.cfg % N_CFG, sh.ext, sh.hiding, sh.cap_height, &sh.heights, &level)));
-    // sibling payloads of the Merkle rows, as the honest run supplies them (arity 2)
+    // sibling payloads of the Merkle rows, as the honest run supplies them
     let payloads = || -> Vec<(u32, p3_circuit::ops::NpoPrivateData)> {
-        bt.op_ids
-            .iter()
-            .zip(&o.sibs)
-            .map(|(op, sib)| (op.0, perm_private_data(C::cfg(), pack_digest::<C>(sib))))
-            .collect()
+        if C::ARITY == 2 {
+            return bt
+                .op_ids
+                .iter()
+                .zip(&o.sibs)
+                .map(|(op, sib)| (op.0, perm_private_data(C::cfg(), pack_digest::<C>(sib))))
+                .collect();
+        }
+        // arity 4: consecutive equal op-ids share one payload, padded to 3 digests
+        let lpd = limbs_per_digest::<C>();
+        let mut out = vec![];
+        let mut i = 0;
+        while i < bt.op_ids.len() {
+            let op = bt.op_ids[i];
+            let mut flat: Vec<C::EF> = vec![];
+            while i < bt.op_ids.len() && bt.op_ids[i] == op {
+                flat.extend(pack_digest::<C>(&o.sibs[i]));
+                i += 1;
+            }
+            flat.resize(3 * lpd, C::EF::ZERO);
+            out.push((op.0, perm_private_data(C::cfg(), flat)));
+        }
+        out
     };
     // control: everything re-derived (the path leads to another root)
     let control = match catch(|| crate::forge::reexecute_pd::<P>(circuit, &honest, &pins, false, payloads())) {
@@ -1563,7 +1583,7 @@ fn forged_opening_cfg<C: Mc, P: crate::pv::Pv<EF = C::EF, BF = C::F>>(c: &Case) 
     if accepted(&t) {
         let mut r = rep;
         r.verdict = crate::fw::Verdict::Fail {
-            sig: "C04/mmcs-opening-forged:arity2:honest-merkle-rows-kept".to_string(),
+            sig: format!("C04/mmcs-opening-forged:arity{}:honest-merkle-rows-kept", C::ARITY),
             msg: format!(
                 "[{}] opened value #{k} ({level}) changed in the Public table, leaf-hash rows re-derived, Merkle-mode rows kept honest: proof ACCEPTED, i.e. the proof attests an opening the native MMCS rejects (the digest a Merkle row takes as an exposed input is not tied to the slot the leaf hash writes)",
                 variant::<C>(&sh)
@@ -1577,7 +1597,9 @@ fn forged_opening_cfg<C: Mc, P: crate::pv::Pv<EF = C::EF, BF = C::F>>(c: &Case) 
 pub fn oracle_forged_opening(c: &Case) -> Report {
     match c.cfg % N_CFG {
         0 => forged_opening_cfg::<KbD4W16, crate::fields::Kb4>(c),
+        1 => forged_opening_cfg::<KbD4W32, crate::fields::Kb4>(c),
         2 => forged_opening_cfg::<BbD4W16, crate::fields::Bb4>(c),
+        3 => forged_opening_cfg::<BbD4W32, crate::fields::Bb4>(c),
         _ => Report::discard("configuration has no prover table support in the harness"),
     }
 }
@@ -1592,7 +1614,7 @@ pub fn oracle_prove_honest_full(c: &Case) -> Report {
 
 pub fn prove_case_strategy() -> impl Strategy<Value = Case> {
     case_strategy(Just(Fault::None), 4).prop_map(|mut c| {
-        c.cfg = if c.cfg % 2 == 0 { 0 } else { 2 };
+        c.cfg %= 4;
         c.sweep = false;
         c.max_height = c.max_height.min(32);
         c
